@@ -1771,3 +1771,32 @@ Proof.
     by (unfold rrd_new; now rewrite mkst_whole).
   apply raw_ranges_trace; auto.
 Qed.
+
+(* ------------------------------------------------------------------ legacy data4/data8 section offsets *)
+
+(* In DWARF 2 and 3 every attribute whose classes include loclistptr/lineptr/macptr/rangelistptr is read with
+   the relocatable read_offset when given as DW_FORM_data4 (32-bit format) or DW_FORM_data8 (64-bit format);
+   DW_FORM_sec_offset always is *)
+Lemma attr_legacy_secoff_relocatable_lemma : forall (name ver : N),
+  In name dwarf3_secoff_names -> ver = 2 \/ ver = 3 ->
+  p_attr_word false ver name 6 = POffset false (fun v => PRet [1; v]) /\
+  p_attr_word true ver name 7 = POffset true (fun v => PRet [1; v]).
+Proof.
+  intros name ver Hn Hv. unfold dwarf3_secoff_names in Hn. cbn [In] in Hn.
+  destruct Hv as [-> | ->];
+    repeat (destruct Hn as [<- | Hn]; [split; reflexivity|]); destruct Hn.
+Qed.
+
+Lemma attr_sec_offset_relocatable_lemma : forall (fmt64 : bool) (name ver : N),
+  p_attr_word fmt64 ver name 23 = POffset fmt64 (fun v => PRet [1; v]).
+Proof. reflexivity. Qed.
+
+Lemma parser_reloc_attr_word_lemma :
+  forall (be dbg fmt64 : bool) (ver name form field : N) (R : list rrel) (bs : list byte) (base : N),
+  let p := PSkip field (p_attr_word fmt64 ver name form) in
+  sites_disjointb R = true ->
+  trace_okb R (fst (run_reloc_rd be dbg (map_relocator R) p (rrd_new (mkRd base bs)))) = true ->
+  out_reloc (snd (run_reloc_rd be dbg (map_relocator R) p (rrd_new (mkRd base bs)))) =
+  out_plain (mkRd base (apply_rrels be R bs))
+            (run_plain_rd be dbg p (mkRd base (apply_rrels be R bs))).
+Proof. intros. now apply parser_reloc_b_lemma. Qed.
